@@ -249,7 +249,12 @@ def stepAdd (s : State) (i : Nat) (id : Nat) (try_ : Bool) (pc : APc) (oc : Outc
 
 def stepRet (s : State) (i : Nat) (id : Nat) (pc : RPc) : Option State :=
   match pc with
-  | .push => some ({ s with queue := s.queue ++ [id] }.setOp i (.ret id .avail))
+  | .push =>
+    -- a closed pool takes nothing back: the object is dropped right away
+    if s.sem.closed then
+      some (({ s with size := s.size - 1, fault := decFault s.fault s.size 1,
+                      dropped := s.dropped ++ [id] }.setOp i .done).emit [.dropped i id])
+    else some ({ s with queue := s.queue ++ [id] }.setOp i (.ret id .avail))
   | .avail => some ({ s with available := s.available + 1 }.setOp i (.ret id .addPermits))
   | .addPermits => some ({ s with sem := s.sem.addPermits 1 }.setOp i (.ret id .cleanup))
   | .cleanup =>
